@@ -645,6 +645,13 @@ func jobsFor(prop, tier string) []*Job {
 			}
 		}
 	}
+	if prop == "C19" {
+		// renderers are cheap: a tight budget turns a non-terminating
+		// renderer into a violation quickly
+		for _, j := range jobs {
+			j.StepBudget = 40000
+		}
+	}
 	return jobs
 }
 
